@@ -228,10 +228,19 @@ fn gen_stream(rng: &mut Rng) -> (StreamSpec, String) {
                 }
             }
         }
-        if rng.ratio(1, 400) {
-            // a line longer than BufReader's 8 KiB
-            let n = rng.range(8193, 20000);
-            l.extend((0..n).map(|_| b'0' + (rng.below(40) as u8)));
+        if rng.ratio(1, 300) {
+            // a line longer than BufReader's 8 KiB; sometimes around 16, 32, 64 and 128 KiB
+            let n = match rng.below(6) {
+                0 => rng.range(16380, 16390),
+                1 => rng.range(32764, 32772),
+                2 => rng.range(65530, 65542),
+                3 => rng.range(131070, 131080),
+                _ => rng.range(8193, 20000),
+            };
+            let have = l.len();
+            // either junk after the checksum, or padding to an exact total length
+            let add = if rng.ratio(1, 2) { n } else { n.saturating_sub(have) };
+            l.extend((0..add).map(|_| b'0' + (rng.below(40) as u8)));
         }
         data.extend_from_slice(&l);
         if rng.permille(crlf_pm) {
